@@ -28,8 +28,11 @@ hints_by_round={
  6:["Look for a slip in error handling and partial failure: what becomes of the other results when one of several parallel operations fails, an error swallowed (or a harmless one promoted to fatal), a `defer` that now runs in the wrong order or on the wrong path, a retry that repeats a side effect, a `continue` that became a `return` (or the reverse) inside a loop over validators, relays or nodes.",
     "Look for a slip in types and conversions: signed vs unsigned, a narrowing conversion or an overflow at a large but legal value, integer division before multiplication, a copy of a struct where the pointer was meant (or the reverse), a map keyed by a formatted string that now collides, a comparison of pointers where values were meant, a slice whose length is taken before it is filtered.",
     "Look for a slip in the interplay of two options or modes: a feature switch or configuration flag (for example unblinding from all relays, logging of results, sync committee inclusion verification, multi-instance / failover options, grace or delay settings, thresholds) whose non-default value takes a path on which the property no longer holds, or two settings that are each fine alone but wrong together."],
+ 7:["Look for a slip at a boundary in time or position: exactly at a slot, epoch or sync-committee-period boundary, the first epoch or slot 0, the far-future epoch, the instant of a fork or of genesis, the last element of a list, a deadline that is reached exactly; an inclusive bound that became exclusive (or the reverse) somewhere other than the main loop.",
+    "Look for a slip in the ORDER of side effects inside one function: a state update (mark, cache entry, map publication, job removal, pending flag) moved before or after a call that can fail, block or be slow; a value read before the call that should be read after it (or the reverse); cleanup that now runs before the last use.",
+    "Look for a slip in the plumbing BETWEEN two services or packages: the value one passes to the other (controller to attester / aggregator / proposer / sync committee services, proposer to relay service, relay service to bid strategy, account manager to validators manager, signer to domain provider): a field dropped or defaulted at the boundary, taken from the wrong one of two similar objects, or converted with the wrong unit."],
 }
-hints=hints_by_round.get(rnd, hints_by_round[6])
+hints=hints_by_round.get(rnd, hints_by_round[7])
 i=rnd
 for k in sorted(props):
     p=props[k]; a=p['anchors']; q=p['quantifier']
